@@ -282,6 +282,28 @@ impl Canon for Z64 {
     }
 }
 
+/// Zero-copy with an alignment unit (128) *above* what the heap loaders support: used by the placement check
+/// (C12) only, where residues 64 (mod 128) must be refused although they satisfy every smaller unit.
+#[derive(Epserde, Copy, Clone, Debug)]
+#[repr(C)]
+#[repr(align(128))]
+#[zero_copy]
+pub struct Z128 {
+    pub a: u32,
+    pub b: u64,
+}
+impl Gen for Z128 {
+    fn gen(r: &mut Rng, s: usize) -> Self {
+        Z128 { a: u32::gen(r, s), b: u64::gen(r, s) }
+    }
+}
+impl Canon for Z128 {
+    fn canon(&self, out: &mut Vec<u8>) {
+        self.a.canon(out);
+        self.b.canon(out);
+    }
+}
+
 /// Zero-copy enum.
 #[derive(Epserde, Copy, Clone, Debug)]
 #[repr(C)]
@@ -1018,6 +1040,10 @@ macro_rules! registry {
     };
 }
 
+/// Documents whose alignment unit exceeds `MemoryAlignment` (64): the heap loaders refuse or cannot align
+/// them (documented), so only the placement check (C12) enumerates them.
+pub const OVERALIGNED_DOCS: &[&str] = &["Z128D", "VecZ128", "OptVecZ128", "IncrE"];
+
 fn slice_escape_deref<T: 'static>(s: &'static [T]) -> Option<(usize, usize, &'static str)> {
     Some((s.as_ptr() as usize, std::mem::size_of_val(s), "deref-copy"))
 }
@@ -1122,6 +1148,11 @@ registry! {
     PaddedVecU64: Padded<Vec<u64>> { fit = |v, m, d| fit_padded(v, m, d) };
     PaddedZ32: Padded<Vec<Z32>> { fit = |v, m, d| fit_padded(v, m, d) };
     PaddedStr: Padded<String> { fit = |v, m, d| fit_padded(v, m, d) };
+    // over-aligned (unit 128 > MemoryAlignment): placement check only (`OVERALIGNED_DOCS`)
+    Z128D: Z128;
+    VecZ128: Vec<Z128>;
+    OptVecZ128: Option<Vec<Z128>> { variants = |r, s| vec![None, Some(Vec::gen(r, s))] };
+    IncrE: Incr<Vec<u8>, Vec<Z128>, Vec<u16>, Vec<Z64>>;
     DropProbeD: DropProbe<Vec<u64>> { probe = |v| Some((v.mark, probe_sum(&v.data))), epsprobe = |v| Some((v.mark, probe_sum(v.data))) };
 }
 
